@@ -19,6 +19,7 @@ import (
 	"time"
 
 	"github.com/osrg/gobgp/v4/api"
+	"github.com/osrg/gobgp/v4/pkg/apiutil"
 )
 
 func init() {
@@ -284,7 +285,7 @@ func genRPKI(seed uint64, tier, mode string) *Script {
 	for _, p := range []string{"10.1.0.0/16", "10.1.0.0/24", "10.1.1.0/24", "10.2.0.0/16", "10.0.0.0/8", "2001:db8::/32", "2001:db8:1::/48"} {
 		bits := netip.MustParsePrefix(p).Bits()
 		for _, ml := range []int{bits, bits + 4, bits + 8} {
-			for _, as := range []uint32{65001, 65010, 65020, 0} {
+			for _, as := range []uint32{65001, 65010, 65020, 0, 65000} { // 65000: the local AS (origin of an empty path)
 				roaPool = append(roaPool, roaRec{p, ml, as})
 			}
 		}
@@ -315,6 +316,9 @@ func genRPKI(seed uint64, tier, mode string) *Script {
 		case r < 62:
 			o := Op{Kind: "route", Peer: g.n(2), Prefix: pick(g, routePfx), Arg: pick(g, []string{"seq", "seq", "seq", "set", "empty", "confedonly"}), Tag: pick(g, []uint32{65001, 65010, 65020, 65030})}
 			add(o)
+		case r < 64:
+			// a route injected through the API with an empty AS_PATH: its origin is the local AS
+			add(Op{Kind: "apiroute", Prefix: pick(g, routePfx[:7])})
 		case r < 66:
 			add(Op{Kind: "notify", N: ci})
 		case r < 70:
@@ -590,6 +594,23 @@ func rpkiOp(w *simWorld, actor int, op *Op) {
 		if p.announce(r) {
 			st.routes[fmt.Sprintf("%d|%s", op.Peer, op.Prefix)] = r
 		}
+		rpkiSettle()
+	case "apiroute":
+		st.serial++
+		tag := mkTag(-1, st.serial)
+		spec := &AttrSpec{Origin: 0, NextHop: "0.0.0.0", MED: -1, LocalPref: -1}
+		nlri, attrs, err := w.gobgpAttrs(famV4, op.Prefix, spec, tag)
+		if err != nil {
+			w.harnessError("apiroute: %v", err)
+			return
+		}
+		r := &annRoute{Tag: tag, Fam: famV4, Prefix: op.Prefix, Spec: spec, Src: -1}
+		w.mu.Lock()
+		w.tags[tag] = r
+		w.mu.Unlock()
+		_, err = w.s.AddPath(apiutil.AddPathRequest{Paths: []*apiutil.Path{{Family: gobgpFamily(famV4), Nlri: nlri, Attrs: attrs, Age: time.Now().Unix()}}})
+		w.logf("AddPath %s: %v", op.Prefix, err)
+		w.probe("api_route_empty_path")
 		rpkiSettle()
 	case "probe":
 		rpkiSettle()
